@@ -967,3 +967,108 @@ def pylist_cases(rng, n=3000):
 def pylist_lit(c):
     which, l, i, x = c
     return "(%d, (%s, (%s, %d)))" % (which, _zl(l), _z(i), x)
+
+
+# ----------------------------------------------------------------------------- shrinking a failing history
+def _op_ids(o):
+    """positions in the op tuple that are object ids (ints or lists of ints / None)"""
+    k = o[0]
+    if k in ("NewDoc",):
+        return []
+    if k == "NewPixel":
+        return [1]
+    if k == "NewGroup":
+        return [1]
+    if k == "GroupLayers":
+        return [1, 2]
+    if k == "Extend":
+        return [1, 2]
+    if k in ("Insert", "SetItem"):
+        return [1, 3]
+    if k in ("Pop", "DelItem", "MoveUp", "MoveDown", "SetVisible", "SetLeft", "SetTop", "SetClip", "ObsExport"):
+        return [1]
+    if k in ("Append", "Remove", "MoveToGroup", "ObsFind"):
+        return [1, 2]
+    return [1]
+
+
+def _renumber(o, removed):
+    """op with every id > removed decremented; None if it mentions the removed id"""
+    o = list(o)
+    for p in _op_ids(o):
+        v = o[p]
+        if isinstance(v, list):
+            if removed in v:
+                return None
+            o[p] = [x - 1 if x > removed else x for x in v]
+        elif isinstance(v, int) and not isinstance(v, bool):
+            if v == removed:
+                return None
+            if v > removed:
+                o[p] = v - 1
+    return tuple(o)
+
+
+def shrink(case, still_fails, budget=400):
+    """greedy: drop steps of the history while still_fails(case) holds.  A step that creates an object can go
+    when no later step mentions the object; later ids are renumbered."""
+    k, ops = case
+    ops = [tuple(o) for o in ops]
+    base = len(kinds_after(SCENES[k]))
+    changed = True
+    while changed and budget > 0:
+        changed = False
+        i = len(ops) - 2  # keep the last (failing) step
+        while i >= 0 and budget > 0:
+            o = ops[i]
+            cand = None
+            allocates = o[0] in ("NewDoc", "NewPixel", "NewGroup") or (o[0] == "GroupLayers" and o[1])
+            if not allocates:
+                cand = ops[:i] + ops[i + 1:]
+            else:
+                nid = base + len(kinds_after(ops[:i]))
+                rest = [_renumber(x, nid) for x in ops[i + 1:]]
+                if all(r is not None for r in rest):
+                    cand = ops[:i] + rest
+            if cand is not None:
+                budget -= 1
+                try:
+                    ok = still_fails((k, cand))
+                except Exception:  # noqa
+                    ok = False
+                if ok:
+                    ops = cand
+                    changed = True
+            i -= 1
+    return (k, ops)
+
+
+def shrink_failures(ck, case, fails, fails_for, min_len=7, limit=4):
+    """unlisted failures found on long (random-walk) histories are reported on a minimised history"""
+    out = []
+    for kind, inp, obs, exp in fails:
+        rec = (kind, inp, obs, exp)
+        hist = inp.get("history") if isinstance(inp, dict) else None
+        n = getattr(ck, "_shrunk", 0)
+        if (hist is None or len(hist) < min_len or n >= limit
+                or ck.classify({"kind": kind, "input": inp, "observed": obs, "expected": exp}) is not None):
+            out.append(rec)
+            continue
+        ck._shrunk = n + 1
+
+        def unlisted(c):
+            for k2, i2, o2, e2 in fails_for(c):
+                if k2 == kind and ck.classify({"kind": k2, "input": i2, "observed": o2, "expected": e2}) is None:
+                    return (k2, i2, o2, e2)
+            return None
+
+        try:
+            small = shrink((case[0], [tuple(o) for o in hist]), lambda c: unlisted(c) is not None)
+            r2 = unlisted(small)
+        except Exception:  # noqa
+            r2 = None
+        if r2 is not None and len(small[1]) < len(hist):
+            out.append((r2[0], dict(r2[1], shrunk_from_length=len(hist)), r2[2], r2[3]))
+        else:
+            out.append(rec)
+    return out
